@@ -22,14 +22,14 @@ def extra_shapes():
         x = l.f64(); h.ex.assume(z3.And(z3.Not(z3.fpIsNaN(x)), z3.Not(z3.fpIsInf(x)), z3.fpLT(z3.fpAbs(x), z3.FPVal(4503599627370496.0, F64)),
                                     z3.Not(z3.fpEQ(z3.fpRoundToIntegral(z3.RTZ(), x), x)))); return h.num(x)
     def smallint(h, l):
-        i = z3.BitVec('i%d' % l.n, 32); l.n += 1; return h.num(z3.fpSignedToFP(z3.RNE(), i, F64))
+        i = z3.BitVec('i%d' % l.n, 16); l.n += 1; return h.num(z3.fpSignedToFP(z3.RNE(), i, F64))
     def big(h, l):
         x = l.f64(); h.ex.assume(z3.And(z3.Not(z3.fpIsNaN(x)), z3.Not(z3.fpIsInf(x)), z3.fpGEQ(z3.fpAbs(x), z3.FPVal(9007199254740992.0, F64)))); return h.num(x)
     S['num-1e19'] = lambda h, l: h.num(1e19)
     S['num-2^63'] = lambda h, l: h.num(9223372036854775808.0)
     S['num-neg-2^63'] = lambda h, l: h.num(-9223372036854775808.0)
     S['num-nonint'] = nonint
-    S['num-int32'] = smallint
+    S['num-int16'] = smallint
     S['num-beyond-2^53'] = big
     S['num-any-unit'] = lambda h, l: h.num(fin(h, l), 'meter')     # well-formed: non-finite numbers carry no unit
     S['coord-any'] = lambda h, l: h.coord(fin(h, l), fin(h, l))
@@ -113,6 +113,8 @@ def is_wellformed(vj):
 
 def run(ctx):
     QUICK[0] = ctx.quick()
+    from mirsym.engine import Exec
+    Exec.query_timeout_ms = 90000        # IEEE conversion queries need more than the default 20 s under load
     prog = load.program(ctx.repo, ctx.cache)
     T = templates(ctx)
     ctx.cov['bounds'] = {'string_code_points': 2 if ctx.quick() else 3, 'collection_entries': 2, 'nesting': 2, 'numbers': 'every f64 bit pattern (symbolic), with and without unit'}
